@@ -312,6 +312,9 @@ func progCost(prog []step) int {
 	c := 0
 	for _, s := range prog {
 		c += 1000 + 10*len(s.Sizes)
+		if s.Op != "Remove" && len(s.Sizes) == 0 {
+			c += 5 // prefer Remove(k) over Update(k, no values) as the example of a removal
+		}
 		for _, z := range s.Sizes {
 			if z > 600 {
 				c++
@@ -604,6 +607,13 @@ var sizesFullThorough = []int{1, 100, 511, 512, 513, 4096, 70000, 1 << 20}
 
 var only513 = []int{513}
 
+var only100 = []int{100}
+
+// plans: the full product (2402 steps)^3 is out of reach (1.4e10 programs), so the space is factored into
+// "every program structure of depth d over a reduced size alphabet" and "every value-size sequence of the full
+// size alphabet at one step position, every step over the reduced alphabet at the other".
+// Reduced alphabets: {100,513} = one chunk the JSON decoder reads in one piece and one it cannot (its read
+// buffer starts at 512 bytes); {100} / {513} alone where only the chunk COUNTS (0-3, fewer/equal/more) matter.
 func plans(thorough bool) []plan {
 	full := sizesFull
 	if thorough {
@@ -616,7 +626,8 @@ func plans(thorough bool) []plan {
 		p = append(p,
 			plan{Name: "mem-full-then-{100,513}", Backend: "mem", Levels: [][]int{full, sizesSmall}},
 			plan{Name: "mem-{100,513}-then-full", Backend: "mem", Levels: [][]int{sizesSmall, full}, Exact: true},
-			plan{Name: "mem-depth4-sizes{513}", Backend: "mem", Levels: [][]int{only513, only513, only513, only513}})
+			plan{Name: "mem-depth4-sizes{100}", Backend: "mem", Levels: [][]int{only100, only100, only100, only100}, Exact: true},
+			plan{Name: "mem-depth4-sizes{513}", Backend: "mem", Levels: [][]int{only513, only513, only513, only513}, Exact: true})
 	} else {
 		p = append(p,
 			plan{Name: "mem-full-then-{513}", Backend: "mem", Levels: [][]int{full, only513}},
@@ -624,20 +635,29 @@ func plans(thorough bool) []plan {
 	}
 	for _, bk := range []string{"infs-big", "infs-medium"} {
 		p = append(p,
-			plan{Name: bk + "-depth2-sizes{513}", Backend: bk, Levels: [][]int{only513, only513}},
-			plan{Name: bk + "-depth1-full", Backend: bk, Levels: [][]int{full}})
+			plan{Name: bk + "-depth1-full", Backend: bk, Levels: [][]int{full}},
+			plan{Name: bk + "-depth2-sizes{100,513}", Backend: bk, Levels: [][]int{sizesSmall, sizesSmall}, Exact: true})
+		if bk == "infs-big" || thorough {
+			p = append(p, plan{Name: bk + "-depth3-sizes{100}", Backend: bk, Levels: [][]int{only100, only100, only100}, Exact: true})
+		}
 		if thorough {
 			p = append(p,
 				plan{Name: bk + "-depth3-sizes{513}", Backend: bk, Levels: [][]int{only513, only513, only513}, Exact: true},
-				plan{Name: bk + "-depth2-sizes{100,513}", Backend: bk, Levels: [][]int{sizesSmall, sizesSmall}, Exact: true},
-				plan{Name: bk + "-full-then-{513}", Backend: bk, Levels: [][]int{full, only513}, Exact: true})
+				plan{Name: bk + "-full-then-{513}", Backend: bk, Levels: [][]int{full, only513}, Exact: true},
+				plan{Name: bk + "-{513}-then-full", Backend: bk, Levels: [][]int{only513, full}, Exact: true})
 		}
+	}
+	if thorough {
+		p = append(p,
+			plan{Name: "infs-big-depth4-sizes{100}", Backend: "infs-big", Levels: [][]int{only100, only100, only100, only100}, Exact: true},
+			plan{Name: "infs-big-depth3-sizes{100,513}", Backend: "infs-big", Levels: [][]int{sizesSmall, sizesSmall, sizesSmall}, Exact: true})
 	}
 	return p
 }
 
-// runPlan enumerates the programs of p whose first step index is in [from,to).
-func runPlan(c *collector, run *ev.Run, p plan, from, to int, stats map[string]int64) {
+// runPlan enumerates the programs of p whose first step index is congruent to chunk modulo nchunks (strided, so
+// that the expensive large-value steps, which are adjacent in the alphabet, spread over the shards).
+func runPlan(c *collector, run *ev.Run, p plan, chunk, nchunks int, stats map[string]int64) {
 	alph := make([][]step, len(p.Levels))
 	for i, l := range p.Levels {
 		alph[i] = alphabet(l)
@@ -660,11 +680,11 @@ func runPlan(c *collector, run *ev.Run, p plan, from, to int, stats map[string]i
 		if d == len(p.Levels) {
 			return
 		}
-		lo, hi := 0, len(alph[d])
+		lo, stride := 0, 1
 		if d == 0 {
-			lo, hi = from, to
+			lo, stride = chunk, nchunks
 		}
-		for i := lo; i < hi; i++ {
+		for i := lo; i < len(alph[d]); i += stride {
 			rec(append(prog[:d:d], alph[d][i]))
 		}
 	}
@@ -729,10 +749,9 @@ func main() {
 		var idx, pi, chunk, nchunks int
 		fmt.Sscanf(job, "%d:%d:%d:%d", &idx, &pi, &chunk, &nchunks)
 		p := pl[pi]
-		n := len(alphabet(p.Levels[0]))
 		c := &collector{run: run, cands: map[string]cand{}}
 		stats := map[string]int64{}
-		runPlan(c, run, p, chunk*n/nchunks, (chunk+1)*n/nchunks, stats)
+		runPlan(c, run, p, chunk, nchunks, stats)
 		if infsDir != "" {
 			os.RemoveAll(infsDir)
 		}
@@ -746,21 +765,43 @@ func main() {
 		pprof.StopCPUProfile()
 		run.EmitPartial()
 	}
-	var jobs []string
+	// Shards per plan from a rough cost estimate (programs x per-program weight); the most expensive shards are
+	// started first. The job name's leading index is the position in plan order (stable tie-break for examples).
+	type jobEst struct {
+		name string
+		cost float64
+	}
+	var est []jobEst
 	for pi, p := range pl {
-		n := 16
-		if thorough {
-			n = 48
-		}
+		progs, w := 1.0, 0.1 // ms per program
 		if isInfs(p.Backend) {
-			n = 32
+			w = 6
 		}
+		for _, l := range p.Levels {
+			progs *= float64(len(alphabet(l)))
+			if len(l) > 2 {
+				w *= 4 // large values
+				if thorough {
+					w *= 3 // 1 MB values
+				}
+			}
+		}
+		target := 4000.0 // ms of work per shard
+		if thorough {
+			target = 30000
+		}
+		n := int(progs*w/target) + 1
 		if a := len(alphabet(p.Levels[0])); a < n {
 			n = a
 		}
 		for i := 0; i < n; i++ {
-			jobs = append(jobs, fmt.Sprintf("%04d:%d:%d:%d", len(jobs), pi, i, n))
+			est = append(est, jobEst{fmt.Sprintf("%04d:%d:%d:%d", len(est), pi, i, n), progs * w / float64(n)})
 		}
+	}
+	sort.SliceStable(est, func(i, j int) bool { return est[i].cost > est[j].cost })
+	var jobs []string
+	for _, e := range est {
+		jobs = append(jobs, e.name)
 	}
 	dl := 15 * time.Minute
 	if thorough {
